@@ -333,6 +333,25 @@ func checkSplitInner(c SplitCase) error {
 	if err := checkPieces("SplitToSize", pieces, c.Text, cfg); err != nil {
 		return err
 	}
+	// the same text with the semantic boundaries tabula's own detector finds in it (paragraph blocks joined by
+	// blank lines, exactly the layout DetectBoundaries assumes): the statement's clauses hold whatever hints the
+	// splitter is given
+	if cfg.SplitAtSemanticBoundaries {
+		var blocks []rag.ContentBlock
+		for i, para := range strings.Split(c.Text, "\n\n") {
+			blocks = append(blocks, rag.ContentBlock{Type: model.ElementTypeParagraph, Text: para, Page: 1, Index: i})
+		}
+		var bounded []string
+		if err := guarded("SplitToSize with boundaries", len(c.Text), func() {
+			bs := rag.NewBoundaryDetector().DetectBoundaries(blocks)
+			bounded = rag.NewSizeCalculatorWithConfig(cfg).SplitToSize(c.Text, bs)
+		}); err != nil {
+			return err
+		}
+		if err := checkPieces("SplitToSize with detected boundaries", bounded, c.Text, cfg); err != nil {
+			return err
+		}
+	}
 	// the same text as the only paragraph of a one-page document
 	var col *rag.ChunkCollection
 	if err := guarded("ChunkDocumentWithConfig", len(c.Text), func() {
